@@ -77,6 +77,10 @@ func (db *DB) GetBucket(i uint) (*Bucket, error) {
 	if readErr != nil {
 		return nil, readErr
 	}
+	// hash length (from the file) and value width must fit into one entry, or unmarshalEntry slices out of bounds
+	if bucket.HashLen > 8 || int(bucket.HashLen)+int(bucket.OffsetWidth) > int(bucket.Stride) {
+		return nil, fmt.Errorf("corrupt bucket header: hash length %d and value size %d do not fit entry stride %d", bucket.HashLen, bucket.OffsetWidth, bucket.Stride)
+	}
 	bucket.Entries = io.NewSectionReader(db.Stream, int64(bucket.FileOffset), int64(bucket.NumEntries)*int64(bucket.Stride))
 	if db.prefetch {
 		// TODO: find good value for numEntriesToPrefetch
